@@ -711,4 +711,189 @@ def HRepl.run (h : HRepl) : List (Ctx × Piece) → HRepl × List Outcome
     let (h2, os) := HRepl.run h1 ps
     (h2, o :: os)
 
+/-! ## Layer 6: the import cache of the ONE VM the pieces share
+
+`vm.importModule` looks the name up in `vm.modules` first; only on a miss does it ask the importer,
+run the module's top-level code (which may import further modules) and enter the module into the
+cache.  `Run` — the incremental path — never touches `vm.modules` (only `resetForNewCode`, reached
+with `resetState = true` from `RunCode`, replaces it), so within one session a module body runs at
+most once, however many pieces import it and under whatever spelling (`import m`, `import m as a`,
+`from m import f`).  Modules are numbers; module `m + 1`'s body may import module `m`
+(`ModCfg.dep`); a module's state is one integer, initialised by its body; `log` records every
+execution of a module body (the module's top-level side effect, its "tick").  Handles are the
+main code's globals that an import binds (the module name, an alias, the names of a from-import). -/
+
+structure ModCfg where
+  init : Nat → Int          -- the value the module body gives the module's state
+  dep  : Nat → Bool         -- module `m + 1`'s body imports module `m` (before initialising its own state)
+
+inductive IStmt where
+  | imp (h m : Nat)              -- `import m` / `import m as h` / `from m import …`: bind handle `h` to module `m`
+  | bump (h : Nat) (d : Int)     -- expression `h.bump(d)`: add `d` to the module's state, yield the new state
+  | get (hs : List Nat)          -- expression `[h₁.get(), h₂.state, …]`: the state seen through each handle
+  | below (h : Nat)              -- expression `h.below()`: the state of the module that `h`'s module imported
+  | keep (j h : Nat)             -- `vⱼ = h.get()`: copy the state seen through `h` into the integer global `j`
+
+structure ISt where
+  cache : List Nat := []                      -- vm.modules
+  log   : List Nat := []                      -- module bodies executed, in order
+  st    : Nat → Int := fun _ => 0             -- module-level state
+  alias : Nat → Option Nat := fun _ => none   -- handle → module
+  vars  : Nat → Int := fun _ => 0             -- integer globals of the main code
+  vals  : List (List Int) := []               -- values of the expression statements, in order
+
+/-- vm.importModule: a cache hit does nothing; a miss runs the body (tick, nested import, state
+    initialisation) and then enters the module into the cache -/
+def loadMod (cfg : ModCfg) : Nat → ISt → ISt
+  | 0, s =>
+    if s.cache.contains 0 then s
+    else { s with log := s.log ++ [0], st := fun k => if k = 0 then cfg.init 0 else s.st k, cache := 0 :: s.cache }
+  | m + 1, s =>
+    if s.cache.contains (m + 1) then s
+    else
+      let s1 : ISt := { s with log := s.log ++ [m + 1] }
+      let s2 := if cfg.dep (m + 1) then loadMod cfg m s1 else s1
+      { s2 with st := fun k => if k = m + 1 then cfg.init (m + 1) else s2.st k, cache := (m + 1) :: s2.cache }
+
+def ISt.seen (s : ISt) (h : Nat) : Int :=
+  match s.alias h with
+  | some m => s.st m
+  | none => 0
+
+def IStmt.exec (cfg : ModCfg) : IStmt → ISt → ISt
+  | .imp h m, s =>
+    let s1 := loadMod cfg m s
+    { s1 with alias := fun k => if k = h then some m else s1.alias k }
+  | .bump h d, s =>
+    match s.alias h with
+    | some m => { s with st := fun k => if k = m then s.st m + d else s.st k, vals := s.vals ++ [[s.st m + d]] }
+    | none => { s with vals := s.vals ++ [[0]] }
+  | .get hs, s => { s with vals := s.vals ++ [hs.map s.seen] }
+  | .below h, s =>
+    match s.alias h with
+    | some (m + 1) => { s with vals := s.vals ++ [[s.st m]] }
+    | _ => { s with vals := s.vals ++ [[0]] }
+  | .keep j h, s => { s with vars := fun k => if k = j then s.seen h else s.vars k }
+
+def execI (cfg : ModCfg) (l : List IStmt) (s : ISt) : ISt := l.foldl (fun s t => t.exec cfg s) s
+
+/-- does the incremental path (`Run`) replace the import cache when a run starts?  As the code is:
+    no.  Tied to vm/vm.go by `Ties.lean` (`importCacheKept_tie`). -/
+def importCacheResetEveryRun : Bool := false
+
+/-- the functions of vm/vm.go that replace or clear `vm.modules` -/
+def importCacheReplacedBy : List String := ["resetForNewCode"]
+
+/-- the start of a run: `seed` = the modules the host supplied as globals (always importable by name) -/
+def startRun (reset : Bool) (seed : List Nat) (s : ISt) : ISt := if reset then { s with cache := seed } else s
+
+/-- a session: the pieces one after the other on the same VM -/
+def impRun (reset : Bool) (cfg : ModCfg) (seed : List Nat) : ISt → List (List IStmt) → ISt
+  | s, [] => s
+  | s, l :: rest => impRun reset cfg seed (execI cfg l (startRun reset seed s)) rest
+
+/-- Impl: the session as the code runs it -/
+def impImpl (cfg : ModCfg) (seed : List Nat) (s : ISt) (h : List (List IStmt)) : ISt :=
+  impRun importCacheResetEveryRun cfg seed s h
+
+/-- Spec: the concatenated program, evaluated at once -/
+def impWhole (cfg : ModCfg) (s : ISt) (h : List (List IStmt)) : ISt := execI cfg h.flatten s
+
+/-- the state a session starts in: the host's modules are in the cache, nothing has run -/
+def ISt.start (seed : List Nat) : ISt := { cache := seed }
+
+/-! ## Layer 7: the globals array is indexed by SLOT; names may repeat
+
+Every `:=` (and every loop variable) of the main code claims the next index of the ROOT symbol
+table, also when it sits in a top-level block (`SymbolTable.claimIndex` of a block delegates to its
+parent): the block variable of `x := 1; if c { x := 2 }` is a second global slot that is also
+called `x`.  Compiled code addresses globals by index only.  `reloadCode` gives the longer main
+code a fresh array and copies the old array into it position by position (`copy`).  The model:
+`names` is the root table (slot `i` is called `names[i]`), a piece adds `decls` slots and runs
+straight-line slot statements (the harness resolves names to slots and unrolls its constant
+loops; the real table is compared with `names` through `vm.GlobalNames`). -/
+
+inductive SExpr where
+  | lit (v : Int)
+  | slot (i : Nat)
+  | add (a b : SExpr)
+  deriving Repr, DecidableEq, Inhabited
+
+inductive SStmt where
+  | set (i : Nat) (e : SExpr)
+  | expr (e : SExpr)
+  deriving Repr, DecidableEq, Inhabited
+
+structure SPiece where
+  decls : List Nat          -- names of the slots this piece's compilation adds to the root table
+  stmts : List SStmt
+  deriving Repr, DecidableEq, Inhabited
+
+/-- the Globals array: `none` = never stored -/
+abbrev Slots := List (Option Int)
+
+def SExpr.eval (a : Slots) : SExpr → Int
+  | .lit v => v
+  | .slot i => (a.getD i none).getD 0
+  | .add x y => x.eval a + y.eval a
+
+/-- state of a run: the array and the values of the expression statements so far -/
+abbrev SSt := Slots × List Int
+
+def SStmt.exec : SStmt → SSt → SSt
+  | .set i e, (a, vs) => (a.set i (some (e.eval a)), vs)
+  | .expr e, (a, vs) => (a, vs ++ [e.eval a])
+
+def execS (l : List SStmt) (s : SSt) : SSt := l.foldl (fun s t => t.exec s) s
+
+/-- Go's `copy(dst, src)` on slices -/
+def copyInto (dst src : Slots) : Slots := src.take dst.length ++ dst.drop src.length
+
+/-- reloadCode as it is: a fresh array for the (longer) table, the old array copied in by position.
+    The names of the table play no role: only its length is used. -/
+def reloadBySlot (names : List Nat) (old : Slots) : Slots := copyInto (List.replicate names.length none) old
+
+/-- the value a by-name carry-over finds for `nm`: the LAST stored slot of the old array called `nm` -/
+def lastNamed (names : List Nat) (old : Slots) (nm : Nat) : Option Int :=
+  (names.zip old).reverse.findSome? fun p => if p.1 = nm then p.2 else none
+
+/-- CONTRAST (not the code): carry the values over by NAME — a map name → value built from the old
+    array in slot order, then every slot of the new array whose name is in the map takes that value -/
+def reloadByName (names : List Nat) (old : Slots) : Slots := names.map (lastNamed names old)
+
+/-- a session over a reload function: per piece, the compiler extends the table, the run reloads
+    (the first load is a reload from the empty array) and executes the piece's statements -/
+def slotRun (reload : List Nat → Slots → Slots) : List Nat → SSt → List SPiece → List Nat × SSt
+  | names, s, [] => (names, s)
+  | names, (a, vs), p :: rest =>
+    slotRun reload (names ++ p.decls) (execS p.stmts (reload (names ++ p.decls) a, vs)) rest
+
+def allDecls (h : List SPiece) : List Nat := (h.map (·.decls)).flatten
+def allStmts (h : List SPiece) : List SStmt := (h.map (·.stmts)).flatten
+
+/-- Spec: the concatenated program on ONE array that has every slot from the start -/
+def slotWhole (names : List Nat) (a : Slots) (vs : List Int) (h : List SPiece) : SSt :=
+  execS (allStmts h) (a ++ List.replicate ((names ++ allDecls h).length - a.length) none, vs)
+
+def SExpr.scoped (n : Nat) : SExpr → Bool
+  | .lit _ => true
+  | .slot i => i < n
+  | .add x y => x.scoped n && y.scoped n
+
+def SStmt.scoped (n : Nat) : SStmt → Bool
+  | .set i e => i < n && e.scoped n
+  | .expr e => e.scoped n
+
+/-- what every compiler output satisfies: a piece's code addresses only slots of the table as it
+    is after that piece's compilation -/
+def scopedFrom : Nat → List SPiece → Bool
+  | _, [] => true
+  | n, p :: rest => p.stmts.all (·.scoped (n + p.decls.length)) && scopedFrom (n + p.decls.length) rest
+
+/-- vm.Get: the FIRST slot with that name -/
+def getByName (names : List Nat) (a : Slots) (nm : Nat) : Option Int :=
+  match names.idxOf? nm with
+  | some i => a.getD i none
+  | none => none
+
 end Risor.C18
